@@ -11,6 +11,8 @@ import WK.Model.ReplJudge
      previous log end (`viol:range-not-at-log-end`);
    * a command the leader's log already contained gets the stored range and the
      leader's log does not grow (`viol:retry-different-range`, `viol:retry-stored-again`);
+   * `backpressure` is only ever answered while the owner has a pending command
+     (`viol:backpressure-without-pending`);
    * against every earlier receipt of the history: same command and content ⇒ same
      range (`viol:retry-different-range`), same command with other content ⇒ no receipt
      (`viol:conflicting-retry-acked`), other command ⇒ disjoint ranges
@@ -54,7 +56,7 @@ def contentBound (j : JState) (s : SObs) (c k p : Nat) : Nat → Nat → Bool
   | _, 0 => true
   | idx, n + 1 =>
     (match s.entry idx with
-     | some e => j.bindingOf e.dig == some (c, k, p)
+     | some e => j.bindingOf e.dig == some (c, p)
      | none => false) && contentBound j s c k p (idx + 1) n
 
 def unkeyedSuffix : String := "server-allocated-unkeyed-evicted"
